@@ -494,10 +494,23 @@ func ruleTermSize(w *World, r *Report, pfx string) {
 		if p.Exit != "return" || len(p.Ret) != 3 {
 			return
 		}
-		fieldName := func(v Val) string {
+		var fieldName func(v Val) string
+		fieldName = func(v Val) string {
 			x := p.stripR(v)
 			if f, ok := loadedField(x.V); ok {
 				return f.Name
+			}
+			if fv, ok := x.V.(*ssa.Field); ok {
+				if f, ok := fieldOf(fv); ok {
+					return f.Name
+				}
+			}
+			// the Windows sibling: extent of the visible window
+			if sub, ok := x.V.(*ssa.BinOp); ok && sub.Op == token.SUB {
+				l, r := fieldName(Val{sub.X, x.F, x.E}), fieldName(Val{sub.Y, x.F, x.E})
+				if l != "" && r != "" {
+					return l + "-" + r
+				}
 			}
 			return ""
 		}
@@ -506,11 +519,11 @@ func ruleTermSize(w *World, r *Report, pfx string) {
 			return // the error path
 		}
 		saw = true
-		if a != "Col" || b != "Row" {
+		if !((a == "Col" && b == "Row") || (a == "Right-Left" && b == "Bottom-Top")) {
 			bad = fmt.Sprintf("GetSize returns (%s, %s) as (width, height): columns and rows are confused", orStr(a, "?"), orStr(b, "?"))
 		}
 	})
-	r.Check(bad == "" && saw, rule, "cwriter.GetSize", w.pos(fn.Pos()), "(width, height) = (ws.Col, ws.Row)", orStr(bad, "no successful return found"))
+	r.Check(bad == "" && saw, rule, "cwriter.GetSize", w.pos(fn.Pos()), "(width, height) = (columns, rows)", orStr(bad, "no successful return found"))
 }
 
 // sameValueExpr: a and b are structurally the same side-effect-free read (same variable, or loads
